@@ -1,4 +1,6 @@
-import Ypv.Lemmas.EditSet
+import Ypv.Lemmas.EditHistory
+import Ypv.Props.C04
+import Ypv.Props.C09
 /-!
 # C03 — a set changes exactly the matched nodes (and their aliases), nothing else
 
@@ -140,6 +142,108 @@ theorem set_preserves_anchorWF_model (v : Scalar) (fmt : Fmt) (d d' : Node) (add
   obtain ⟨s, rfl⟩ := set_ok_eq_spec v fmt d d' addrs hm hs hok
   exact ⟨set_preserves_anchorWF s d addrs hm hs hw, scalarAnchors_setSpec hm hs s⟩
 
+/-! ### Histories: the model refines a plain-data model
+
+`Node.plain` erases every anchor (aliases are already expanded in `Node`).  The plain-data model
+(`POp`, `runPlain` in `Spec/Edit.lean`) has three elementary edits, none of which can look at an
+anchor: put a scalar at the nodes whose ADDRESS is in a given set, remove the nodes at a set of
+addresses, replace the node at one address.  `OpAbs d op pops` reads an operation performed in the
+anchored document `d` as plain edits: a set is one `put` per `_update_node` call, at the addresses of
+the matched node and of the nodes carrying its anchor name in the document of that moment
+(`stepAbs`); a delete is `remove` of the matched addresses; a creation is a `graft` of the node
+`createHere` builds at the deepest existing node (C09 `create_exact`) followed by the `put` of the
+value.  Documents have pairwise different mapping keys (`Node.keysNodup`; true of every loaded YAML
+document) — this is what makes "the nodes at these addresses" the same thing in both models. -/
+
+/-- every operation has a plain-data reading -/
+theorem opAbs_total (d : Node) (op : Op) : ∃ pops, OpAbs d op pops := by
+  cases op with
+  | set addrs v fmt =>
+    cases h : setValue v fmt d addrs with
+    | error e => exact ⟨[], .failed (e := e) (by simp [Op.apply, h])⟩
+    | ok d' => exact ⟨_, .set h⟩
+  | delete addrs =>
+    by_cases h : [] ∈ addrs
+    · exact ⟨[], .failed (e := .ypath .noDocument) (by simp [Op.apply, C04.delete_root_refused d addrs h])⟩
+    · exact ⟨_, .delete h⟩
+  | create segs v fmt =>
+    cases hw : wrapType v with
+    | error e => exact ⟨[], .failed (e := e) (by simp [Op.apply, setOrCreate, getOrCreate, hw])⟩
+    | ok leaf =>
+      cases hc : d.createPath leaf segs with
+      | error e => exact ⟨[], .failed (e := e) (by simp [Op.apply, setOrCreate, getOrCreate, hw, hc])⟩
+      | ok r =>
+        cases hs : setStep v fmt r.doc r.addr with
+        | error e => exact ⟨[], .failed (e := e) (by simp [Op.apply, setOrCreate, getOrCreate, hw, hc, hs])⟩
+        | ok d' =>
+          cases C09.create_exact leaf d segs r hc with
+          | present n hf hd => exact ⟨_, .createNone hw hc hd (by rw [← hd]; exact hs)⟩
+          | nullRelay pre seg rest q n ref _ _ _ _ hd _ => exact ⟨_, .createNone hw hc hd (by rw [← hd]; exact hs)⟩
+          | created pre seg rest q n n' hseg hf hl hch hd ha => exact ⟨_, .created hw hc hseg hf hl hch hd hs⟩
+
+/-- **One operation on plain data** (from `C04.delete_eq_spec`, `C09.create_exact`, `step_refines`):
+erasing the anchors after the operation = running its plain-data reading on the erased document. -/
+theorem opAbs_sound (d : Node) (op : Op) (pops : List POp) (hk : d.keysNodup = true) (h : OpAbs d op pops) :
+    (op.step d).plain = runPlain d.plain pops ∧ (op.step d).keysNodup = true := by
+  cases h with
+  | failed he => simp only [Op.step, he, runPlain]; exact ⟨trivial, hk⟩
+  | set hs =>
+    simp only [Op.step, Op.apply, hs]
+    exact setAbs_refines _ _ _ d _ hk hs
+  | delete hr =>
+    rename_i addrs
+    have : delete d addrs = .ok (d.removeAll addrs) := by rw [C04.delete_eq_spec]; simp [deleteSpec, hr]
+    simp only [Op.step, Op.apply, this, runPlain, POp.apply]
+    exact ⟨plain_removeAll d _, keysNodup_removeAll d _ hk⟩
+  | createNone hw hc hd hs =>
+    rename_i d' segs v fmt leaf r
+    have : setOrCreate d segs v fmt = .ok d' := by
+      simp only [setOrCreate, getOrCreate, hw, hc, hd]; exact hs
+    simp only [Op.step, Op.apply, this, runPlain]
+    exact step_refines _ _ d _ _ hk hs
+  | created hw hc hseg hf hl hch hd hs =>
+    rename_i d' segs v fmt leaf r pre seg rest q n n'
+    have : setOrCreate d segs v fmt = .ok d' := by
+      simp only [setOrCreate, getOrCreate, hw, hc]; exact hs
+    simp only [Op.step, Op.apply, this, runPlain]
+    have hkn' := createHere_keysNodup (keysNodup_get? q d n hk hf.get?) hl hch
+    have hk1 : r.doc.keysNodup = true := by rw [hd]; exact keysNodup_graftAt n' hkn' d q hk
+    obtain ⟨h1, h2⟩ := step_refines v fmt r.doc d' r.addr hk1 hs
+    refine ⟨?_, h2⟩
+    rw [h1, hd, plain_graftAt (fun _ => n') (fun _ => n'.plain) (fun _ => rfl) d q]
+    rfl
+
+/-- **history_refines.**  For EVERY list of set / delete / create operations (any matched addresses,
+any values; failing operations change nothing) and every document with pairwise different mapping
+keys, the history has a plain-data reading `pops` (`HistAbs`: operation by operation, in the document
+of that moment) and erasing the anchors COMMUTES with running it:
+`(runOps d ops).plain = runPlain d.plain pops`. -/
+theorem history_refines : ∀ (ops : List Op) (d : Node), d.keysNodup = true →
+    ∃ pops, HistAbs d ops pops ∧ (runOps d ops).plain = runPlain d.plain pops ∧ (runOps d ops).keysNodup = true
+  | [], d, hk => ⟨[], .nil d, rfl, hk⟩
+  | op :: ops, d, hk => by
+    obtain ⟨p1, ha⟩ := opAbs_total d op
+    obtain ⟨h1, hk1⟩ := opAbs_sound d op p1 hk ha
+    obtain ⟨p2, hb, h2, hk2⟩ := history_refines ops (op.step d) hk1
+    have hrun : runOps d (op :: ops) = runOps (op.step d) ops := by
+      simp only [runOps, Op.step]; cases op.apply d <;> rfl
+    exact ⟨p1 ++ p2, .cons ha hb, by rw [hrun, h2, h1, runPlain_append], by rw [hrun]; exact hk2⟩
+
+/-- The plain-data outcome does not depend on which reading of the history is taken (the only
+freedom `OpAbs` leaves is how a creation is split into existing prefix and missing tail). -/
+theorem history_refines_det (ops : List Op) (d : Node) (pops pops' : List POp)
+    (h : HistAbs d ops pops) (h' : HistAbs d ops pops') (hk : d.keysNodup = true) :
+    runPlain d.plain pops = runPlain d.plain pops' := by
+  induction h generalizing pops' with
+  | nil d => cases h'; rfl
+  | cons ha hb ih =>
+    cases h' with
+    | cons ha' hb' =>
+      obtain ⟨h1, hk1⟩ := opAbs_sound _ _ _ hk ha
+      obtain ⟨h1', _⟩ := opAbs_sound _ _ _ hk ha'
+      rw [runPlain_append, runPlain_append, ← h1, ← h1']
+      exact ih _ hb' hk1
+
 /-! ### Concrete witnesses -/
 
 def I (a : Option Str) (i : Int) : Node := .scalar a (.int i)
@@ -181,4 +285,19 @@ example : ¬ AnchorWF (setSpec (.map none [(.str ['a'], .seq (some ['x']) [I non
   have := h [.key (.str ['a'])] [.key (.str ['b'])] (.seq (some ['x']) [I none 5]) (.seq (some ['x']) [I none 1])
     (by simp) (by simp) (by decide +kernel) (by decide +kernel) rfl rfl
   revert this; decide +kernel
+
+/-- a history over `docX` (anchored scalar + alias): set through the anchor, delete a list element,
+create `n[1]`; and its plain-data reading — the `put` of the first step names the alias address too. -/
+def histX : List Op := [.set [[.key (.str ['a'])]] (.int 5) .default, .delete [[.key (.str ['b']), .idx 1]],
+  .create [.key ['n'], .index 1] (.str ['x']) .default]
+example : docX.keysNodup = true := by decide +kernel
+example : (runOps docX histX).plain = runPlain docX.plain
+    [.put (fun y => y == [.key (.str ['a'])] || y == [.key (.str ['b']), .idx 0]) (.int 5),
+     .remove [[.key (.str ['b']), .idx 1]],
+     .graft [] (.map none [(.str ['a'], I none 5), (.str ['b'], .seq none [I none 5]), (.str ['c'], I none 1),
+        (.str ['n'], .seq none [.scalar none (.str ['x']), .scalar none (.str ['x'])])]),
+     .put (fun y => y == [.key (.str ['n']), .idx 1]) (.str ['x'])] := by decide +kernel
+example : OpAbs docX (.set [[.key (.str ['a'])]] (.int 5) .default)
+    (setAbs (.int 5) .default docX [[.key (.str ['a'])]]) :=
+  .set (d' := setSpec docX [[.key (.str ['a'])]] (.int 5)) (by decide +kernel)
 end Ypv.C03
